@@ -90,6 +90,7 @@ var encoderKinds = []string{"sign1", "sign2", "signdet", "enc1", "enc2", "sc", "
 type faultReader struct {
 	data    []byte
 	chunk   int
+	segs    []int // when set: the sizes of successive deliveries (e.g. the Write calls of the encoder that produced the data)
 	calls   int
 	failAt  int
 	mode    string // "alone-transient", "alone-sticky", "with-data"
@@ -99,6 +100,17 @@ type faultReader struct {
 func (r *faultReader) Read(p []byte) (int, error) {
 	i := r.calls
 	r.calls++
+	if len(r.segs) > 0 {
+		r.chunk = r.segs[0]
+		if r.chunk > len(p) {
+			r.segs[0] -= len(p)
+		} else {
+			r.segs = r.segs[1:]
+			if len(r.segs) == 0 {
+				r.segs = []int{1 << 30}
+			}
+		}
+	}
 	if r.tripped && r.mode != "alone-transient" {
 		return 0, errInjected
 	}
@@ -172,7 +184,17 @@ func init() {
 		stack := c.A["stack"]
 		input := unhx(c.A["input"])
 		chunk, _ := strconv.Atoi(c.A["chunk"])
-		free := &faultReader{data: append([]byte{}, input...), chunk: chunk, failAt: -1}
+		var segs []int
+		if c.A["segs"] != "" {
+			for _, f := range strings.Split(c.A["segs"], ",") {
+				n, _ := strconv.Atoi(f)
+				if n > 0 {
+					segs = append(segs, n)
+				}
+			}
+		}
+		cp := func() []int { return append([]int{}, segs...) }
+		free := &faultReader{data: append([]byte{}, input...), chunk: chunk, segs: cp(), failAt: -1}
 		base := decodeStack(stack, c, free, 512)
 		if !base.ok {
 			return append(fs, Failure{Kind: "oracle", Key: "rfault-baseline-fails", Desc: fmt.Sprintf("fault-free run of %s failed: %s", stack, base.errClass)})
@@ -180,7 +202,7 @@ func init() {
 		n := free.calls
 		for k := 0; k < n; k++ {
 			for _, mode := range []string{"alone-transient", "alone-sticky", "with-data"} {
-				r := &faultReader{data: append([]byte{}, input...), chunk: chunk, failAt: k, mode: mode}
+				r := &faultReader{data: append([]byte{}, input...), chunk: chunk, segs: cp(), failAt: k, mode: mode}
 				o := decodeStack(stack, c, r, []int{1, 43, 512}[k%3])
 				if strings.HasPrefix(o.errClass, "PANIC") {
 					fs = append(fs, Failure{Kind: "oracle", Key: "rfault-panic", Desc: o.errClass})
@@ -253,6 +275,39 @@ func genFaults(h *H) {
 			}
 		}
 	}
+	// armored messages delivered exactly as the library's own streaming encoder wrote them (a pipe
+	// or socket), for every small plaintext length, so that every alignment of the base-X blocks
+	// with the end of the body occurs
+	maxLen := 40
+	if thorough {
+		maxLen = 100
+	}
+	rsk, ssk := h.randBoxSk(), h.randBoxSk()
+	for l := 0; l <= maxLen; l++ {
+		var rec recWriter
+		var err error
+		withRand(h.rng.Bytes(200), func() {
+			err = guard(func() error {
+				w, e := saltpack.NewEncryptArmor62Stream(saltpack.Version2(), &rec, boxSecretFromBytes(ssk), []saltpack.BoxPublicKey{boxPubFromBytes(boxPk(rsk), false)}, "")
+				if e != nil {
+					return e
+				}
+				if _, e := w.Write(h.rng.Bytes(l)); e != nil {
+					return e
+				}
+				return w.Close()
+			})
+		})
+		if err != nil {
+			fatal("cannot produce an armored message with the streaming encoder: %v", err)
+		}
+		var segs []string
+		for _, n := range rec.sizes {
+			segs = append(segs, strconv.Itoa(n))
+		}
+		h.tag("rfault:encoder-fragmentation")
+		h.Run(Case{Op: "rfault", A: map[string]string{"stack": "open-armored", "keys": ringKeysStr([][]byte{rsk}), "signers": "_", "ring": "_", "input": hx(rec.buf), "chunk": "4096", "segs": strings.Join(segs, ",")}})
+	}
 	h.res.ExhNote = "for each stream and message, a fault is injected at EVERY underlying Write (transient and sticky) / Read (alone transient, alone sticky, with data) call the fault-free run makes"
 }
 
@@ -261,4 +316,16 @@ func init() {
 		rule: "cases: (write side) each of 12 encoder streams (sign V1/V2, detached, encrypt V1/V2, signcrypt, their armored forms, the bare armor and basex encoders) x message lengths {0,1,40,700} (up to 1 MiB+10 in thorough) with random Write splits: the fault-free run counts the underlying Write calls N, then one run per k<N with the k-th call failing once and one with it failing from then on; required: the constructor, some Write or Close returns an error. (read side) each decoder stack (decrypt, verify, signcryption open, dearmor, and the armored forms) on genuine messages read through an underlying reader delivering 5/7/64/4096 bytes per call, with an injected non-EOF error at EVERY call k: alone (transient or sticky) or together with data (sticky, including whitespace-only slices of re-flowed armor); required: the stream ends with an error, never cleanly, and what it released is a prefix of the genuine output. An evaluation is one (stream, message) sweep; injections are counted in the distribution.",
 		gen:  genFaults,
 	}
+}
+
+// recWriter records the bytes and the size of every Write call
+type recWriter struct {
+	buf   []byte
+	sizes []int
+}
+
+func (w *recWriter) Write(p []byte) (int, error) {
+	w.buf = append(w.buf, p...)
+	w.sizes = append(w.sizes, len(p))
+	return len(p), nil
 }
